@@ -62,8 +62,7 @@ def showView (k : Nat) : Option (View Nat Nat) → String
 def showState (s : St) : String :=
   " ".intercalate ((List.range 4).map (fun k => showDS k (s.d[k]!)) ++ (List.range 2).map (fun k => showView k (s.v[k]!)))
 
-def isPerm (p : List Nat) (n : Nat) : Bool :=
-  p.length == n && (List.range n).all (fun i => p.count i == 1)
+def isPerm (p : List Nat) (n : Nat) : Bool := p.isPerm (List.range n)
 
 def slotOk (a : Nat) : Bool := a < 4
 def vslotOk (a : Nat) : Bool := a < 2
